@@ -18,6 +18,7 @@ import (
 	"math"
 	"net/http"
 	"reflect"
+	"sort"
 	"strings"
 	"testing"
 	"testing/iotest"
@@ -232,6 +233,33 @@ func checkCut(R *ev.Run, c codec, rs []vegeta.Result, data []byte, ends []int, c
 	return "", nil
 }
 
+// hugeCuts: the cut offsets used for streams too long to cut everywhere.
+func hugeCuts(n int, ends []int) []int {
+	set := map[int]bool{0: true, n: true}
+	around := func(x, r int) {
+		for d := -r; d <= r; d++ {
+			if x+d >= 0 && x+d <= n {
+				set[x+d] = true
+			}
+		}
+	}
+	for _, e := range ends {
+		around(e, 40)
+	}
+	for _, m := range []int{4096, 8192, 65536, 131072} {
+		around(m, 8)
+	}
+	for x := 0; x <= n; x += 1009 {
+		set[x] = true
+	}
+	cuts := make([]int, 0, len(set))
+	for x := range set {
+		cuts = append(cuts, x)
+	}
+	sort.Ints(cuts)
+	return cuts
+}
+
 func TestC09(t *testing.T) {
 	R := ev.New("C09")
 	R.Rule = "cases = (codec, stream, cut offset[, read granularity]); gob and JSON: every byte offset 0..len of every stream, CSV: every record boundary; plus (codec, sequence of length 1..3 over the pool, Encode call / Write call) for the nothing-is-held-back check. A case is distinct+non-trivial when its (codec, stream, offset) is new and the cut falls strictly inside a record (a torn record follows the clean prefix), or - for the write-log part - when bytes of at least two Encode calls precede the inspection point"
@@ -285,6 +313,17 @@ func TestC09(t *testing.T) {
 		rec(nil, 4)
 		rec(nil, 5)
 	}
+	// a record larger than every I/O buffer on the path (bufio 4 KiB, a 64 KiB reader, Scanner 64 KiB). Streams holding
+	// it are too long for a cut at every offset: they are cut around every record end, around the buffer-size
+	// multiples, at every 1009th offset and at the very end (see hugeCuts).
+	hugeIdx := len(p)
+	p = append(p, vegeta.Result{Attack: "huge", Seq: 99, Code: 200, Timestamp: time.Date(2024, 3, 1, 12, 0, 0, 9, time.UTC), Latency: time.Millisecond,
+		BytesIn: 100000, Body: bigBody(100000), Method: "GET", URL: "http://huge/", Headers: http.Header{"X-H": {"1"}}})
+	nSmall := len(streams)
+	add(hugeIdx)
+	add(1, hugeIdx, 2)
+	add(3, 1, hugeIdx)
+	add(hugeIdx, 0, 5)
 	R.Set("streams", len(streams))
 	R.Set("pool_size", len(p))
 
@@ -301,6 +340,7 @@ func TestC09(t *testing.T) {
 		lo, hi   int // cuts lo..hi-1
 		boundary bool
 		oneByte  bool
+		cuts     []int // explicit cut list (streams with the huge record)
 	}
 	var jobs []job
 	var pre []viol
@@ -335,6 +375,10 @@ func TestC09(t *testing.T) {
 				jobs = append(jobs, job{c: c, si: si, rs: rs, data: w.buf, ends: ends, boundary: true})
 				continue
 			}
+			if si >= nSmall {
+				jobs = append(jobs, job{c: c, si: si, rs: rs, data: w.buf, ends: ends, cuts: hugeCuts(len(w.buf), ends)})
+				continue
+			}
 			const chunk = 512
 			for lo := 0; lo <= len(w.buf); lo += chunk {
 				hi := lo + chunk
@@ -367,6 +411,12 @@ func TestC09(t *testing.T) {
 				d["stream_indices"] = streams[j.si]
 				out[ji] = append(out[ji], viol{j.c.name + ":truncated:" + kind, d})
 			}
+		}
+		if j.cuts != nil {
+			for _, cut := range j.cuts {
+				try(cut)
+			}
+			return
 		}
 		if j.boundary {
 			try(0)
